@@ -180,7 +180,10 @@ class ServiceInfo(RecordUpdateListener):
         # Accept both none, or one, but not both.
         if addresses is not None and parsed_addresses is not None:
             raise TypeError("addresses and parsed_addresses cannot be provided together")
-        if not type_.endswith(service_type_name(name, strict=False)):
+        # Names are not case sensitive: a browser reports an instance in the
+        # spelling of the pointer record it received, which may differ from the
+        # spelling of the type that is browsed (X._HTTP._TCP.LOCAL. for _http._tcp.local.)
+        if not type_.lower().endswith(service_type_name(name.lower(), strict=False)):
             raise BadTypeInNameException
         self.interface_index = interface_index
         self.text = b''
